@@ -901,6 +901,23 @@ func (e *SpecEnv) evalGoCall(n *SCall) Value {
 	scratch.G = TTrue
 	u.specMode++
 	defer func() { u.specMode-- }()
+	// a call whose arguments do not mention bound variables is closed: its contract facts may be asserted
+	if u.ctx.inQuant > 0 {
+		closed := true
+		for _, a := range args {
+			d := describeValue(a)
+			for _, bv := range e.bound {
+				if sc, ok := bv.(Sc); ok && strings.Contains(d, sc.T.S) {
+					closed = false
+				}
+			}
+		}
+		if closed {
+			saved := u.ctx.inQuant
+			u.ctx.inQuant = 0
+			defer func() { u.ctx.inQuant = saved }()
+		}
+	}
 	var resT types.Type = callee.Signature.Results()
 	if callee.Signature.Results().Len() == 1 {
 		resT = callee.Signature.Results().At(0).Type()
